@@ -92,6 +92,7 @@ def run(case):
         return None
     gone = set()
     held = []
+    held_ids = set()
     for step, op in enumerate(case):
         if op[0] == "create":
             u = start(client, timeout=op[1]); ids.append(u); last[u] = now()
@@ -113,7 +114,7 @@ def run(case):
                     next(it); next(it)
                 except StopIteration:
                     pass
-                held.append((r, it))
+                held.append((r, it)); held_ids.add(u)
                 last[u] = now()
                 bad = expect(step)
         elif op[0] == "metrics":
@@ -146,7 +147,7 @@ def run(case):
                     gone.add(u)
                 bad = expect(step)
             else:
-                if not (200 <= r.status_code < 300):
+                if not (200 <= r.status_code < 300) and not (op[2] == "step" and u in held_ids):
                     return "step %d: live instance %d refused %s with %d" % (step, ids.index(u), op[2], r.status_code)
                 last[u] = now()
                 bad = expect(step)
